@@ -1,4 +1,4 @@
-SPECIFICATION GSpec
+SPECIFICATION GSpecSim
 CONSTANTS Names = {"n1","n2"}
           Cids = {"A"}
           Forms = {"b36","b58"}
@@ -11,11 +11,11 @@ CONSTANTS Names = {"n1","n2"}
           CacheSizes = {0,1,2}
           MaxTTLCaps = {1}
           Depths = {1,2}
-          MaxNow = 1
+          MaxNow = 2
           MaxSeq = 9
-          D = 2
-          E = 2
+          D = 1000
+          E = 4
           ChainMode = TRUE
           Prefix = 0
           Devs = {}
-INVARIANTS Emit
+
